@@ -330,7 +330,11 @@ func verifHook(op, path string, phase, n int) {
 	patch(goroot, out, repl, "os/file_posix.go", func(s string) string {
 		s = wrap(s, "func (f *File) Sync() error {", "sync", "f.name", "0")
 		s = wrap(s, "func (f *File) Close() error {", "close", "f.name", "0")
+		s = wrap(s, "func (f *File) Truncate(size int64) error {", "truncate", "f.name", "int(size)")
 		return s
+	})
+	patch(goroot, out, repl, "os/removeall_at.go", func(s string) string {
+		return wrap(s, "func removeAll(path string) error {", "removeall", "path", "0")
 	})
 	patch(goroot, out, repl, "os/file_unix.go", func(s string) string {
 		s = wrap(s, "func Remove(name string) error {", "remove", "name", "0")
